@@ -144,6 +144,12 @@ func genStoreDoc(rng *rand.Rand, p storeParams, id uint32, marker string) storeD
 	}
 	if p.Text {
 		d.Text = fmt.Sprintf("common %s w%d w%d", marker, rng.IntN(7), rng.IntN(7))
+		switch rng.IntN(40) {
+		case 0: // a very long unbroken token (an API key, a base64 blob)
+			d.Text += " " + strings.Repeat("k3yBl0b", 60)
+		case 1: // a long run of blanks (one segment for the tokeniser)
+			d.Text += strings.Repeat(" ", 300) + "tail"
+		}
 	}
 	if p.Meta {
 		d.Meta = map[string]any{"kind": "doc", "n": int(id % 1000), "marker": marker}
@@ -160,7 +166,11 @@ const bigK = 1 << 20
 
 type storeAnswers struct {
 	Vec, Text, Meta map[uint32]bool
-	Err             error
+	// Combos: the same all-matching parts combined in ONE query (vector+metadata, text+metadata, vector+text), issued
+	// after the single-modality ones: a part of the store that was loaded or cached for a narrower query must serve
+	// the wider one just as completely
+	Combos map[string]map[uint32]bool
+	Err    error
 }
 
 // searchAllModalities issues one all-matching query per configured modality.
@@ -206,13 +216,48 @@ func searchAllModalities(s comet.HybridSearchIndex, p storeParams) storeAnswers 
 		}
 		a.Meta = toSet(res)
 	}
+	vec := func(x comet.HybridSearch) comet.HybridSearch {
+		q := make([]float32, p.Dim)
+		q[0] = 1
+		x = x.WithVector(q)
+		if p.VecKind == "ivf" || p.VecKind == "ivfpq" {
+			x = x.WithNProbes(p.Nlist)
+		}
+		if p.VecKind == "hnsw" {
+			x = x.WithEfSearch(100000)
+		}
+		return x
+	}
+	a.Combos = map[string]map[uint32]bool{}
+	combo := func(name string, x comet.HybridSearch) bool {
+		res, err := x.WithK(bigK).Execute()
+		if err != nil {
+			a.Err = fmt.Errorf("%s query: %w", name, err)
+			return false
+		}
+		a.Combos[name] = toSet(res)
+		return true
+	}
+	if p.VecKind != "" && p.Meta && !combo("vector+metadata", vec(s.NewSearch()).WithMetadata(comet.Eq("kind", "doc"))) {
+		return a
+	}
+	if p.Text && p.Meta && !combo("text+metadata", s.NewSearch().WithText("common").WithMetadata(comet.Eq("kind", "doc"))) {
+		return a
+	}
+	if p.VecKind != "" && p.Text && !combo("vector+text", vec(s.NewSearch()).WithText("common")) {
+		return a
+	}
 	return a
 }
 
 // checkContains reports, per modality, documents of want that are missing and ids outside ever.
 func (a storeAnswers) check(want, ever map[uint32]bool) (missing map[string][]uint32, foreign map[string][]uint32) {
 	missing, foreign = map[string][]uint32{}, map[string][]uint32{}
-	for name, got := range map[string]map[uint32]bool{"vector": a.Vec, "text": a.Text, "metadata": a.Meta} {
+	sets := map[string]map[uint32]bool{"vector": a.Vec, "text": a.Text, "metadata": a.Meta}
+	for name, got := range a.Combos {
+		sets[name] = got
+	}
+	for name, got := range sets {
 		if got == nil {
 			continue
 		}
